@@ -1,0 +1,82 @@
+// Copyright 2024, Chef.  All rights reserved.
+// https://github.com/q191201771/lal
+//
+// Use of this source code is governed by a MIT-style license
+// that can be found in the License file.
+//
+// Author: Chef (191201771@qq.com)
+
+package rtsp
+
+import (
+	"io"
+	"strconv"
+
+	"github.com/q191201771/lal/pkg/base"
+	"github.com/q191201771/naza/pkg/nazaerrors"
+	"github.com/q191201771/naza/pkg/nazahttp"
+)
+
+// maxHttpMsgBodyLength rtsp信令的body（sdp、参数列表）最多几KB，超过这个值的Content-Length认为是非法的
+const maxHttpMsgBodyLength = 1 << 20
+
+// readHttpMessage 读取一个rtsp信令（格式和http消息相同）
+//
+// 和 nazahttp.ReadHttpMessage 的区别是：在为body申请内存之前，先检查对端填写的Content-Length。
+// nazahttp.ReadHttpMessage 直接执行`make([]byte, contentLength)`，Content-Length为负数时panic（makeslice: len out of range），
+// 为超大值时耗尽内存，而一个未鉴权的请求（或者拉流、推流时对端的一个响应）就可以填写任意值，并且读取协程没有recover。
+//
+// 注意，如果Header中不包含`Content-Length`，则不会读取Body，并且err返回值为nil
+func readHttpMessage(r nazahttp.HttpReader) (ctx nazahttp.HttpMsgCtx, err error) {
+	var firstLine string
+	firstLine, ctx.Headers, err = nazahttp.ReadHttpHeader(r)
+	if err != nil {
+		return ctx, err
+	}
+	ctx.ReqMethodOrRespVersion, ctx.ReqUriOrRespStatusCode, ctx.ReqVersionOrRespReason, err = nazahttp.ParseHttpRequestLine(firstLine)
+	if err != nil {
+		return ctx, err
+	}
+
+	contentLength := ctx.Headers.Get(nazahttp.HeaderFieldContentLength)
+	if len(contentLength) == 0 {
+		return ctx, nil
+	}
+	cl, err := strconv.Atoi(contentLength)
+	if err != nil {
+		return ctx, err
+	}
+	if cl < 0 || cl > maxHttpMsgBodyLength {
+		return ctx, nazaerrors.Wrap(base.ErrRtsp, "invalid content length: "+contentLength)
+	}
+	ctx.Body = make([]byte, cl)
+	_, err = io.ReadFull(r, ctx.Body)
+
+	return ctx, err
+}
+
+func readHttpRequestMessage(r nazahttp.HttpReader) (ctx nazahttp.HttpReqMsgCtx, err error) {
+	msgCtx, err := readHttpMessage(r)
+	if err != nil {
+		return
+	}
+	ctx.Method = msgCtx.ReqMethodOrRespVersion
+	ctx.Uri = msgCtx.ReqUriOrRespStatusCode
+	ctx.Version = msgCtx.ReqVersionOrRespReason
+	ctx.Headers = msgCtx.Headers
+	ctx.Body = msgCtx.Body
+	return
+}
+
+func readHttpResponseMessage(r nazahttp.HttpReader) (ctx nazahttp.HttpRespMsgCtx, err error) {
+	msgCtx, err := readHttpMessage(r)
+	if err != nil {
+		return
+	}
+	ctx.Version = msgCtx.ReqMethodOrRespVersion
+	ctx.StatusCode = msgCtx.ReqUriOrRespStatusCode
+	ctx.Reason = msgCtx.ReqVersionOrRespReason
+	ctx.Headers = msgCtx.Headers
+	ctx.Body = msgCtx.Body
+	return
+}
